@@ -69,12 +69,16 @@ class BaseCtx:
         self.issues: List[Issue] = []
         self.op = case.get("op", "?")
         self.checked = 0
+        self.built: List[Any] = []  # operands handed to the body
+        self.results: List[Any] = []  # library results the body compared (native runs: what a caller could go on to modify)
 
     # construction ------------------------------------------------------------
     def build(self, spec):
         from . import structures as S
 
-        return S.build_operand(spec, self.values())
+        o = S.build_operand(spec, self.values())
+        self.built.append(o)
+        return o
 
     def model(self, spec):
         from . import structures as S
@@ -119,6 +123,8 @@ class BaseCtx:
         from . import model as M
         import numpoly
 
+        if not self.symbolic and len(self.results) < 64:
+            self.results.append(got)
         try:
             gm = M.to_model(got)
         except Exception as e:  # malformed result
@@ -474,6 +480,40 @@ def explore_case(
             if _k >= n_wide:
                 rec["env"] = "int32"
             confirmed.append(rec)
+    # state kept between calls: repeat the first native run after overwriting everything the first pass handed out
+    try:
+        for r in scribble_rerun(body, case, valuations[0], options):
+            sig = r.signature()
+            if seen_sig.get(sig):
+                continue
+            seen_sig[sig] = 1
+            rec = r.to_json()
+            rec["signature"] = sig
+            rec["values"] = {a: frac_str(v) for a, v in valuations[0].items()}
+            rec["native_detail"] = r.detail
+            rec["env"] = "scribble"
+            confirmed.append(rec)
+        fidelity += 1
+    except Exception:
+        pass
+    # ... and on the same operand objects with new contents (identity-keyed memo tables)
+    try:
+        if len(valuations) >= 2 and valuations[0] != valuations[1]:
+            for r in reuse_rerun(body, case, valuations[0], valuations[1], options):
+                sig = r.signature()
+                if seen_sig.get(sig):
+                    continue
+                seen_sig[sig] = 1
+                rec = r.to_json()
+                rec["signature"] = sig
+                rec["values"] = {a: frac_str(v) for a, v in valuations[1].items()}
+                rec["values_before"] = {a: frac_str(v) for a, v in valuations[0].items()}
+                rec["native_detail"] = r.detail
+                rec["env"] = "reuse"
+                confirmed.append(rec)
+            fidelity += 1
+    except Exception:
+        pass
     d = {k: ENGINE.stats[k] - q0.get(k, 0) for k in ENGINE.stats}
     return {
         "case": case,
@@ -506,6 +546,179 @@ def _matching(rep: List[Issue], iss: Issue) -> List[Issue]:
         or (iss.kind == "uninitialised" and r.kind in ("value", "exception"))
         or (iss.kind == "value" and r.kind in ("shape", "malformed"))
     ]
+
+
+def scribble(objs, accessors_only: bool = False) -> int:
+    """What a caller is free to do with objects the library handed out: overwrite them in place.  Every writable array /
+    polynomial in ``objs`` -- and what the accessors and public helper functions return for each polynomial (``exponents``,
+    ``indeterminants``, ``coefficients``, ``glexsort`` of its exponents, ``sortable_proxy``, ``lead_exponent`` ...) -- is
+    filled with a sentinel.  ``accessors_only``: leave the objects themselves alone (they are about to be used again).
+    Returns the number of arrays written."""
+    import numpoly
+
+    n = 0
+    seen = set()
+
+    def fill(a):
+        nonlocal n
+        try:
+            if isinstance(a, numpoly.ndpoly):
+                raw = a.view(numpy.ndarray)
+                if raw.flags.writeable and raw.size:
+                    for key in raw.dtype.names or ():
+                        raw[key] = 7
+                    n += 1
+            elif isinstance(a, numpy.ndarray) and a.flags.writeable and a.size and a.dtype.kind in "biufc":
+                a[...] = 7
+                n += 1
+        except Exception:
+            pass
+
+    def visit(o, depth=0):
+        if id(o) in seen or depth > 3:
+            return
+        seen.add(id(o))
+        if isinstance(o, (list, tuple)):
+            for x in o:
+                visit(x, depth + 1)
+            return
+        if isinstance(o, numpoly.ndpoly):
+            handed = []
+            for acc in ("exponents", "indeterminants") + (() if accessors_only else ("coefficients",)):
+                try:
+                    handed.append(getattr(o, acc))
+                except Exception:
+                    pass
+            try:
+                ex = o.exponents
+                for g in (False, True):
+                    for r in (False, True):
+                        handed.append(numpoly.glexsort(ex.T, graded=g, reverse=r))
+                handed.append(numpoly.sortable_proxy(o))
+                handed.append(numpoly.lead_exponent(o))
+                handed.append(numpoly.lead_coefficient(o))
+                handed.append(numpoly.glexindex(2, dimensions=max(1, len(o.names))))
+                handed.append(numpoly.variable(len(o.names)))
+            except Exception:
+                pass
+            for v in handed:
+                for x in v if isinstance(v, (list, tuple)) else [v]:
+                    fill(x)
+        if not accessors_only:
+            fill(o)
+
+    for o in objs:
+        visit(o)
+    return n
+
+
+def scribble_rerun(body, case, values, options=None) -> List[Issue]:
+    """Native run, then the caller overwrites everything it was handed, then the same native run again on freshly built
+    operands: the second run must not be affected (results and accessors own their memory or share it only with the
+    arguments of that call -- never with module-level state or with what a later call returns)."""
+    import numpoly
+
+    _poison_install()
+    first = ConcreteCtx(case, values)
+    second = ConcreteCtx(case, values)
+    from . import structures as _S
+
+    try:
+        with numpoly.global_options(**numpoly.get_options(defaults=True)):
+            if options:
+                numpoly.set_options(**options)
+            for k, ctx in enumerate((first, second)):
+                try:
+                    body(ctx)
+                except _S.Unrepresentable:
+                    return []
+                except Exception as e:
+                    ctx.fail("harness-exception", "%s: %s" % (type(e).__name__, str(e)[:200]))
+                if k == 0:
+                    scribble(list(first.results) + list(first.built))
+    except Exception:
+        return []
+    had = {i.signature() for i in first.issues}
+    out = []
+    for i in second.issues:
+        if i.signature() not in had and i.kind != "harness-exception":
+            i.detail += " [second identical call sequence, after the caller overwrote in place what the first one returned]"
+            out.append(i)
+    return out
+
+
+class ReuseCtx(ConcreteCtx):
+    """Second native pass on the *same operand objects* as a first pass, their contents overwritten in place with another
+    valuation: anything remembered per object identity (memo tables, weak-reference caches) answers for the old contents."""
+
+    def __init__(self, case, values, pool):
+        super().__init__(case, values)
+        self._pool = list(pool)
+        self._k = 0
+        self.reused = 0
+
+    def build(self, spec):
+        import numpoly
+        from . import structures as S
+
+        fresh = S.build_operand(spec, self.values())
+        old = self._pool[self._k] if self._k < len(self._pool) else None
+        self._k += 1
+        try:
+            if isinstance(fresh, numpoly.ndpoly) and isinstance(old, numpoly.ndpoly) and old.dtype == fresh.dtype and old.shape == fresh.shape and tuple(old.names) == tuple(fresh.names):
+                ro, rf = old.view(numpy.ndarray), fresh.view(numpy.ndarray)
+                if ro.dtype == rf.dtype and ro.flags.writeable:
+                    ro[...] = rf
+                    self.reused += 1
+                    self.built.append(old)
+                    return old
+            elif type(fresh) is numpy.ndarray and type(old) is numpy.ndarray and old.dtype == fresh.dtype and old.shape == fresh.shape and old.flags.writeable:
+                old[...] = fresh
+                self.reused += 1
+                self.built.append(old)
+                return old
+        except Exception:
+            pass
+        self.built.append(fresh)
+        return fresh
+
+
+def reuse_rerun(body, case, values1, values2, options=None) -> List[Issue]:
+    import numpoly
+    from . import structures as _S
+
+    _poison_install()
+    first = ConcreteCtx(case, values1)
+    try:
+        with numpoly.global_options(**numpoly.get_options(defaults=True)):
+            if options:
+                numpoly.set_options(**options)
+            try:
+                body(first)
+            except _S.Unrepresentable:
+                return []
+            except Exception:
+                return []
+            scribble(list(first.built), accessors_only=True)  # what the accessors handed out is the caller's to overwrite
+            second = ReuseCtx(case, values2, first.built)
+            try:
+                body(second)
+            except _S.Unrepresentable:
+                return []
+            except Exception as e:
+                second.fail("harness-exception", "%s: %s" % (type(e).__name__, str(e)[:200]))
+    except Exception:
+        return []
+    if not second.reused:
+        return []
+    # what the second valuation gives on fresh objects is the reference: only differences from it count
+    ref = {i.signature() for i in concrete_run_poisoned(body, case, values2, options)}
+    out = []
+    for i in second.issues:
+        if i.signature() not in ref and i.kind != "harness-exception":
+            i.detail += " [same operand objects as in an earlier call, contents changed in place in between]"
+            out.append(i)
+    return out
 
 
 def _narrow_ok(values) -> bool:
